@@ -261,6 +261,12 @@ impl<'a, 'b: 'a, R: Read> RowParser<'a, 'b, R> {
             }
 
             let val = self.parser.parse_value()?;
+            if col_num >= cols.len() {
+                return self
+                    .parser
+                    .lexer
+                    .make_generic_err("Zinc Grid parser: Row has more cells than columns.");
+            }
             dict.insert(cols[col_num].name.clone(), val);
 
             self.parser.lexer.read()?;
